@@ -284,7 +284,7 @@ fn finished_ok(i: &Indication, id: &TransactionID, need_complete: bool) -> bool 
     }
 }
 
-pub fn run(ops: &str, out: &mut impl Write, orc: &mut impl Write, ev: &mut impl Write) {
+pub fn run(ops: &str, out: &mut impl Write, orc: &mut impl Write, ev: &mut impl Write, rstats: &mut Stats) {
     let rt = tokio::runtime::Builder::new_current_thread().enable_time().start_paused(true).build().unwrap();
     rt.block_on(async {
         for (hdr, lines) in cases(ops) {
@@ -427,6 +427,19 @@ pub fn run(ops: &str, out: &mut impl Write, orc: &mut impl Write, ev: &mut impl 
                 }
                 world.drain_inds().await;
             }
+            // ---------------- what this case exercised on the real daemons
+            rstats.inc("cases");
+            rstats.add("put_requests", world.puts.len() as u64);
+            rstats.add("put_given_id", world.puts.iter().filter(|p| p.id.is_some()).count() as u64);
+            for p in &world.puts {
+                if let Some(tid) = p.id {
+                    if p.dest != 3 && world.nodes[1 - p.daemon].inds.iter().any(|i| finished_ok(i, &tid, true)) {
+                        rstats.inc("transactions_delivered");
+                    }
+                }
+            }
+            rstats.add("pdus_routed", world.nodes.iter().map(|n| n.delivered.len() as u64).sum());
+            rstats.add("fault_or_abandon_indications", world.nodes.iter().map(|n| n.inds.iter().filter(|i| matches!(i, Indication::Fault(_) | Indication::Abandon(_))).count() as u64).sum());
             // ---------------- oracles (C11) on the real daemons
             let mut fail = |msg: String| writeln!(orc, "FAIL C11 case={id} op={} {msg}", lines.len()).unwrap();
             if world.fatal {
